@@ -7,6 +7,14 @@ V = os.path.dirname(os.path.dirname(os.path.abspath(__file__)))
 props = [json.loads(l) for l in open(os.path.join(V, "properties.jsonl"))]
 
 CLAIMED = {
+    "C06": dict(
+        technique="static analysis: MIR may-panic / recursion / exit-status inventory (rustc_private driver) + CFG ordering of file creation vs. validation",
+        text="Decides on the MIR of the shipped targets that every panic-capable site reachable from main is one of the inventoried, individually discharged sites (new or moved sites are reported), that every recursion is tabled with its depth argument, "
+        "that all exits use status 1 and that the script destination is created only after all validation, with no diagnostic exit afterwards. Unbounded recursion depth is reported as known findings. "
+        "Does not decide promptness of termination, panics inside dependencies beyond listed contracts, or I/O faults.",
+        note="trusted: rustc's MIR and callee resolution; the discharge arguments in tables/panic_sites.toml and tables/recursion.toml (classes GUARD/KEYOF/ARGUED are confirmed by reading, ARENA/INTERN/EXIT/PHASE re-checked)",
+        design="5/C06",
+    ),
     "C08": dict(
         technique="static analysis: syn syntax-tree rules (must-pass-through of validations, guard-variant agreement, traversal completeness, cycle-search seeding)",
         text="Decides structural necessary conditions of C08 on /repo's current source: every validation sits unconditionally on every success path; each Error variant is built under the predicate the property names; "
@@ -77,6 +85,7 @@ m = {
         "add_only": True,
     },
     "engines": [
+        {"name": "M mirfacts", "path": "tools/mirfacts", "serves_properties": ["C06"], "kind_free_text": "rustc_private driver (RUSTC_WORKSPACE_WRAPPER under cargo +nightly check through tools/shim/rustc): MIR CFG, resolved callees, assert kinds, types; analyses in vlib/mir.py, vlib/rules_panic.py"},
         {"name": "S srcfacts", "path": "tools/srcfacts", "serves_properties": sorted(CLAIMED), "kind_free_text": "syn 2 syntax-tree dump (JSON) of /repo/src/*.rs; provenance resolver and rules in vlib/*.py"},
     ],
     "checks": checks,
